@@ -26,6 +26,9 @@ EXPLANATION = (
     ' R15.3 (Arc.length shortcuts): a returned value that is not computed from the radii and the sweep - the'
     ' chord, a constant - must be dominated by a test that the sweep is zero: coincident end points with a'
     ' non-zero sweep are a full turn.'
+    ' R15.5 cache sentinel: the set of fields that every invalidation site clears is computed over the whole'
+    ' module (list mutators clear the total only), and every test by which point / npoint / length /'
+    ' _calc_lengths decide that the cache is valid must use a field of that set.'
 )
 TECHNIQUE = (
     "static analysis (no execution): role-based structural rules for additivity/fractions/point(t); closed forms as exact canonical forms; collinear fallback by partial evaluation; NNF of the subdivision stopping test; cache-coherence fixed point over the call graph"
@@ -49,6 +52,7 @@ def run(ctx):
     quad_fallback(ctx)
     quad_conditioning(ctx)
     cache_error(ctx)
+    cache_sentinel(ctx)
     subdivision(ctx)
     n = cachecoh.check(ctx, "R15.5")
     ctx.need(n >= 8, "R15.5", "too few mutating methods recognised (%d)" % n)
@@ -89,6 +93,49 @@ def quad_conditioning(ctx):
     ctx.ob("R15.3", "QuadraticBezier.length[closed form entered only when |a| is not negligible against |b|]", bool(guards),
            "; ".join(ast.unparse(g.test) for g in guards) or "only the ZeroDivisionError/ValueError handler leads to the straight-line case", q.lineno,
            "a control point at the chord midpoint up to rounding leaves |a| ~ 1e-16: no exception, and the closed form has no correct digit (a straight line of length 0.72 measures 0.52)")
+
+
+def cache_sentinel(ctx):
+    """The cache is two fields, the total and the per-segment fractions.  Invalidation sites do not all clear both: the list
+    mutators (append, insert, extend, del) clear the total only.  A reader may therefore decide "the cache is valid" only by a
+    field that EVERY invalidation site clears; the other one can be stale while it is still not None."""
+    fields = ("_length", "_lengths")
+    sites = {}
+    for q, fn in ctx.m.all_functions():
+        cleared = set()
+        for st in ast.walk(fn):
+            if isinstance(st, ast.Assign) and isinstance(st.value, ast.Constant) and st.value.value is None:
+                for t in st.targets:
+                    ch = attr_chain(t)
+                    if ch and ch[-1] in fields and ch[0] == "self":
+                        cleared.add(ch[-1])
+        if cleared and q.split(".")[-1] not in ("__init__",):
+            sites[q] = cleared
+    ctx.need(len(sites) >= 6, "R15.5", "invalidation sites of the length cache not found (%d)" % len(sites))
+    safe = set(fields)
+    for q, c in sites.items():
+        safe &= c
+    ctx.ob("R15.5", "length cache[a field every invalidation site clears]", bool(safe), "cleared everywhere: %s; sites: %d" % (sorted(safe), len(sites)), 0,
+           "no field is cleared by every invalidation site: no reader can tell a stale cache from a valid one")
+    n = 0
+    for q in ("Shape.point", "Shape.npoint", "Shape._calc_lengths", "Shape.length"):
+        fn = ctx.fn(q, "R15.5")
+        for st in ast.walk(fn):
+            if not isinstance(st, ast.If):
+                continue
+            tested = [attr_chain(x.left)[-1] for x in ast.walk(st.test) if isinstance(x, ast.Compare) and len(x.ops) == 1 and isinstance(x.ops[0], (ast.Is, ast.IsNot))
+                      and isinstance(x.comparators[0], ast.Constant) and x.comparators[0].value is None and attr_chain(x.left) and attr_chain(x.left)[0] == "self" and attr_chain(x.left)[-1] in fields]
+            if not tested:
+                continue
+            decides = any(isinstance(c, ast.Call) and attr_chain(c.func) == ["self", "_calc_lengths"] for b in st.body for c in ast.walk(b)) or \
+                any(isinstance(b, ast.Return) for b in st.body)
+            if not decides:
+                continue
+            n += 1
+            ok = all(t in safe for t in tested)
+            ctx.ob("R15.5", "%s[cache validity decided by %s]" % (q, "+".join(tested)), ok, "fields cleared by every invalidation site: %s" % sorted(safe), st.lineno,
+                   "append/insert/extend/del clear the total only: after point(t); path.line(...); point(t) the fractions are those of the old segment list")
+    ctx.need(n >= 3, "R15.5", "cache validity tests not found (%d)" % n)
 
 
 def cache_error(ctx):
